@@ -4,6 +4,7 @@ package c01
 import (
 	"fmt"
 	"sync"
+	"time"
 
 	openfgav1 "github.com/openfga/api/proto/openfga/v1"
 
@@ -38,7 +39,7 @@ func run(c *vk.Ctx) {
 	for _, be := range backends {
 		n := nCases
 		if be == "sqlite" {
-			n = nCases / 14 // the pure-Go sqlite driver serialises on one mutex: deep recursive cases take minutes each
+			n = nCases / 8 // the pure-Go sqlite driver serialises on one mutex
 		}
 		runBackend(c, be, n)
 	}
@@ -94,6 +95,7 @@ func oneCase(c *vk.Ctx, srv *drive.Srv, backend string, i int, modes []drive.Mod
 	subjects, ctxs, nodes := sem.RequestSpace(r, p, c.Pick(5, 8), c.Pick(2, 4))
 	all := append(append([]*openfgav1.TupleKey{}, stored...), contextual...)
 	sampled := false
+	slow := 0 // requests of this case that took 5 s or more (workload shaping only, never a verdict)
 	for _, rctx := range ctxs {
 		rc := ref.NewCase(p.Ref, all, rctx, extraObjects(nodes, subjects)...)
 		hasTuples := map[string]bool{}
@@ -106,8 +108,20 @@ func oneCase(c *vk.Ctx, srv *drive.Srv, backend string, i int, modes []drive.Mod
 				k := res.K(n[0], n[1])
 				rq := sem.Request{Object: n[0], Relation: n[1], User: subj, Ctx: rctx}
 				for _, mode := range modes {
+					if slow >= 4 {
+						// a case whose requests each run for seconds (the listed exponential-resolution shapes, worst
+						// on the sqlite driver) would hold the run for hours: its remaining requests are skipped
+						c.Count("requests_skipped_in_cases_with_4_slow_requests", 1)
+						continue
+					}
 					drive.ForceStore(p.Store, mode)
+					t0 := time.Now()
 					o := srv.Check(drive.Req{Store: p.Store, Object: n[0], Relation: n[1], User: subj, Ctx: rctx, Contextual: contextual})
+					if time.Since(t0) >= 5*time.Second {
+						if slow++; slow == 4 {
+							c.Count("cases_cut_short_after_4_slow_requests", 1)
+						}
+					}
 					v := sem.JudgeCheck(k, rc.AnyUnevaluable(), o)
 					c.Case(sem.ShapeOf(p, rq, k)+"|"+string(mode), k != ref.F || hasTuples[n[0]])
 					c.Count("verdict_"+v.String(), 1)
